@@ -4,7 +4,7 @@
    as a stable insertion sort, the partTriInds loops, the table construction, the renumbering
    loop; GetSegmentation; NiShape::ReorderTriangles) and the re-fit of Geom/GeomModel.v. *)
 From NiflyVerif Require Import Res UtilModel UtilSpec EraseProofs GeomModel SegModel GeomBase GeomSpec
-  SegSort SegProofs.
+  SegSort SegProofs RefitProofs.
 From Coq Require Import Sorted Permutation.
 Local Open Scope N_scope.
 
@@ -85,6 +85,39 @@ Theorem C17_renumbering : forall inf labels,
     Forall (fun k => (0 <= k < Z.of_nat (ids_total (inf_segs inf)))%Z) (map (renumber (inf_ids (inf_segs inf))) labels).
 Proof. exact renumber_loop_ok. Qed.
 Print Assumptions C17_renumbering.
+
+(* ---- the re-fit after vertex deletion (BSSubIndexTriShape::notifyVerticesDelete), as a function:
+   every range loses the dropped triangles lying inside it, then the ranges are laid out one after
+   the other. No fault when the counters agree with the tables. *)
+Theorem C17_refit_function : forall b idx,
+  sorted_lt idx -> bs_kind b = BSSubIndex -> bs_core_wf b = true -> seg_tables_wf b = true ->
+  bs_delete b idx = Ok (bs_sits_spec b idx).
+Proof. exact bs_sits_delete_ok. Qed.
+Print Assumptions C17_refit_function.
+
+(* the range facts that survive a vertex deletion: starting from tables that tile the triangle
+   list as SetSegmentation leaves them ([segs_tile]), the re-fitted tables are contiguous, ordered,
+   start at 0, end at the new triangle count (so the sizes sum to it), numPrimitives is the new
+   triangle count, and every segment's sub-segments are contiguous and inside the segment
+   ([segs_tile_w]) - they start at the segment's START, not after the segment's own triangles:
+   that is exactly the defect refuted below. *)
+Theorem C17_refit_keeps_ranges : forall b idx,
+  sorted_lt idx -> bs_kind b = BSSubIndex -> bs_core_wf b = true -> seg_tables_wf b = true ->
+  segs_tile 0 (sn_segs (bs_segn b)) (bs_nt b) -> sn_nprim (bs_segn b) = bs_nt b -> 3 * bs_nt b < 4294967296 ->
+  exists b', bs_delete b idx = Ok b' /\
+    bs_tris b' = tris_spec idx (bs_tris b) /\ bs_nt b' = vlen (bs_tris b') /\
+    sn_nprim (bs_segn b') = bs_nt b' /\
+    segs_tile_w 0 (sn_segs (bs_segn b')) (bs_nt b').
+Proof. exact bs_sits_delete_ranges. Qed.
+Print Assumptions C17_refit_keeps_ranges.
+
+(* the counting fact behind it: walking the dropped positions in descending order, a range of n
+   triangles starting at lo loses exactly the dropped positions inside [lo, lo + n) *)
+Theorem C17_shrink_counts : forall lo D n,
+  StronglySorted (fun a b => b < a) D -> lo + n < 4294967296 ->
+  fold_left (shrink_step lo) D n = n - count_in D lo (lo + n).
+Proof. exact shrink_count_ok. Qed.
+Print Assumptions C17_shrink_counts.
 
 (* ---- the re-fit after vertex deletion does NOT keep the labels (DESIGN section 7, #9a).
    Witness: six triangles on 18 vertices, info "segment 0 with sub-segments 1 and 2; segment 3",
